@@ -377,8 +377,11 @@ fn capacity(f: &Facts) -> Result<(), String> {
             }
             Ok(())
         }
-        Cap::B(n) => {
-            let n = n as i64;
+        Cap::B(_) | Cap::Big => {
+            let n = match f.p.cap {
+                Cap::B(n) => n as i64,
+                _ => crate::prog::BIG as i64,
+            };
             for c in &f.h.calls {
                 if let (Op::Len(_), Res::Num(l)) = (c.op, &c.res) {
                     if *l as i64 > n {
